@@ -41,6 +41,24 @@ PLAIN_TEXTS = ['x', 'key=value', 'a b c', ' leading', 'trailing ', '', 'k=', '=v
                'a=b=c', '\tTab']
 
 
+class _LineCollector(list):
+    def __init__(self, run, c):
+        list.__init__(self)
+        self.run, self.c = run, c
+
+    def __call__(self, line):
+        self.append(line)
+        self.run.on_line(self.c, line)
+
+
+class _LineSink(object):
+    def __init__(self, run, c):
+        self.run, self.c = run, c
+
+    def got(self, line):
+        self.run.on_line(self.c, line)
+
+
 class Cmd(object):
     __slots__ = ('idx', 'kind', 'text', 'wire', 'reply', 'expected', 'done', 'outcome', 'lines', 'follow',
                  'observed', 'fired', 'exp_lines', 'post_loss', 'deferred', 'cancelled')
@@ -369,14 +387,25 @@ class CtlRun(object):
         elif kind == 'plain':
             d = self.proto.queue_command(text)
         elif kind == 'rawcb':
-            d = self.proto.queue_command(text, lambda line, c=c: self.on_line(c, line))
+            d = self.proto.queue_command(text, self.line_callback(c))
         else:
-            d = self.proto.get_info_incremental('x/%d' % idx, lambda line, c=c: self.on_line(c, line))
+            d = self.proto.get_info_incremental('x/%d' % idx, self.line_callback(c))
         if not isinstance(d, defer.Deferred):
             sim.fail(self.prop + '.no-deferred', 'submission returned %r' % (d,))
         c.deferred = d
         d.addCallbacks(lambda res, c=c: self.on_result(c, True, res), lambda f, c=c: self.on_result(c, False, f))
         return c
+
+    def line_callback(self, c):
+        """the per-line callback of a command: a plain function, or a callable collector object (a list subclass with
+        __call__, empty - hence falsy - until the first line arrives), or a bound method"""
+        k = self.ch.weighted([5, 2, 1], 'cbshape')
+        if k == 0:
+            return lambda line, c=c: self.on_line(c, line)
+        if k == 1:
+            self.sim.probe('per-line-callback-is-a-falsy-callable-object')
+            return _LineCollector(self, c)
+        return _LineSink(self, c).got
 
     def op_cancel(self):
         """the caller gives up on a command (Deferred.cancel(), what addTimeout() does): the command keeps its place
